@@ -116,6 +116,8 @@ func cffExpected(g *cff.Glyph) (segs []ximg.Seg, ok bool) {
 			}
 			segs = append(segs, s)
 			cx, cy = s.X[2], s.Y[2]
+		case cff.OpHintMask, cff.OpCntrMask:
+			// hints do not draw
 		default:
 			return nil, false
 		}
